@@ -178,8 +178,80 @@ func runC19Conc(c *Ctx, r *Rng) {
 	c.Cov.Hit("first." + blockOn)
 }
 
+// c19cCapsChild answers Capabilities() with fixed values; the first call can be held inside the child
+type c19cCapsChild struct {
+	c19cChild
+	caps capsT
+}
+
+func (c *c19cCapsChild) Capabilities() tally.Capabilities { c.block(); return c.caps }
+
+type c19cCapsCached struct {
+	c19cCached
+	caps capsT
+}
+
+func (c *c19cCapsCached) Capabilities() tally.Capabilities { c.block(); return c.caps }
+
+// runC19Caps: an answer of Capabilities() is a value: once returned it says what the conjunction was, whatever other
+// callers are doing.  Caller B gets an answer (false: child 1 is not capable); caller A then calls Capabilities() and is
+// held inside child 0; while A is in there B reads its answer again: still false.  Then A is released and must get the
+// conjunction too.
+func runC19Caps(c *Ctx, cachedFlavour bool) {
+	gate, entered := make(chan struct{}), make(chan struct{})
+	var capsOf func() tally.Capabilities
+	var k0 *c19cChild
+	if cachedFlavour {
+		a := &c19cCapsCached{caps: capsT{true, true}}
+		b := &c19cCapsCached{caps: capsT{false, false}}
+		k0 = &a.c19cChild
+		m := multi.NewMultiCachedReporter(a, b)
+		capsOf = m.Capabilities
+	} else {
+		a := &c19cCapsChild{caps: capsT{true, true}}
+		b := &c19cCapsChild{caps: capsT{false, false}}
+		k0 = &a.c19cChild
+		m := multi.NewMultiReporter(a, b)
+		capsOf = m.Capabilities
+	}
+	line := fmt.Sprintf("flavour cached=%v, children [capable, not capable]: B obtains an answer; A calls Capabilities() and is held inside child 0; B reads its answer again", cachedFlavour)
+	fail := func(why string) {
+		c.Cov.Fail(Failure{Kind: "violated", Clause: "capabilities-conjunction", Signature: "c19conc-caps-answer-changes", Line: line, Reply: why})
+	}
+	ansB := capsOf() // (the gate is not armed yet: block() passes while gate == nil)
+	if ansB.Reporting() || ansB.Tagging() {
+		fail("the answer is not the conjunction (one child is capable of nothing)")
+		return
+	}
+	k0.gate, k0.entered = gate, entered
+	got := make(chan tally.Capabilities, 1)
+	go func() { got <- capsOf() }()
+	select {
+	case <-entered:
+	case <-time.After(2 * time.Second):
+		close(gate)
+		c.Cov.Fail(Failure{Kind: "crash", Clause: "setup", Signature: "c19conc-caps-no-entry", Line: line})
+		return
+	}
+	r1, t1 := ansB.Reporting(), ansB.Tagging()
+	close(gate)
+	ansA := <-got
+	if r1 || t1 {
+		fail(fmt.Sprintf("while another caller was inside Capabilities(), the answer B had been given earlier read reporting=%v tagging=%v (the conjunction is false, false)", r1, t1))
+		return
+	}
+	if ansA.Reporting() || ansA.Tagging() {
+		fail("caller A's answer is not the conjunction")
+		return
+	}
+	c.Cov.Eval(line, true)
+	c.Cov.Hit("caps-answer-immutable")
+}
+
 func suiteC19Conc(c *Ctx) {
-	c.Cov.Rule = "overlapping calls on a multi reporter (plain and cached, 1-4 counting children): the first Flush / report blocks inside child 0 while 1-3 further Flush and 0-3 report calls are issued from other goroutines, then it is released; oracle: every child has seen exactly as many Flush and counter calls, with the same values, as were made on the multi reporter; every case nontrivial; distinct by configuration"
+	runC19Caps(c, false)
+	runC19Caps(c, true)
+	c.Cov.Rule = "overlapping calls on a multi reporter (plain and cached, 1-4 counting children): the first Flush / report blocks inside child 0 while 1-3 further Flush and 0-3 report calls are issued from other goroutines, then it is released; oracle: every child has seen exactly as many Flush and counter calls, with the same values, as were made on the multi reporter; plus, per flavour, one scripted case: an answer of Capabilities() obtained earlier is read again while another caller is held inside a child's Capabilities() and must not have changed; every case nontrivial; distinct by configuration"
 	n := c.N(60, 600)
 	for i := 0; i < n; i++ {
 		runC19Conc(c, c.Rng.Fork())
